@@ -549,6 +549,18 @@ func ObserveObj(o *SyncObj) {
 	s.cur.h = s.cur.h.fold('P').foldH(o.rel)
 }
 
+// Yield is a scheduling point after an operation that hands a reference to
+// other goroutines (an atomic store, sync.Map Store / LoadOrStore, a channel
+// send): the goroutine can be descheduled between publishing an object and
+// filling it in through writes that are not hooked.
+func Yield(what string) {
+	if s == nil {
+		return
+	}
+	s.cur.lastCell = 0
+	yieldPoint(what)
+}
+
 // SyncPoint is a scheduling point before a synchronisation operation.
 func SyncPoint(what string) {
 	if s == nil {
